@@ -101,7 +101,9 @@ example : mkInterval 9999999999999999 0 0 = none := by rfl
 open Sqlgrep.NoPanicEngine in
 /-- **C09 at the level of a whole run.** For every statement (SELECT or aggregate, with WHERE / GROUP BY / HAVING /
 DISTINCT / LIMIT / JOIN), every table, every joined file, every list of input files with any rows, every
-interrupt point and all oracle tables, a batch run ends with records or a reported error — never in a panic.
+interrupt point and all oracle tables, a batch run never ends in a panic: it ends with records, with a reported error, or —
+only when the case did not ship an external fact the run needed (a regex verdict, a Unicode case mapping; since
+`Model/DecFloat.lean` no longer a number text) — as `skipped`, which the check counts and never compares.
 The two indexing sites of `execute_result` (`group_key_mapping[&hash]`, `group_key.0[index]`) are shown
 unreachable through the invariant `Inv` (a group exists only after an update that validated every `GroupKey`
 item, and every stored key has one value per GROUP BY part). -/
